@@ -2442,8 +2442,25 @@ class GA(G):
                     body.append(("print", ("call", ("prop", ("var", name2 + "_tup"), self.pick(["has", "index"])), [a1])))
                 else:
                     if kind2 == "list":
-                        form = self.i(0, 3)
-                        if form == 0:
+                        form = self.i(0, 5)
+                        if form >= 4:
+                            # natives that build a new list hand out a fresh object: never the receiver itself, and
+                            # changing the copy leaves the original alone
+                            cp = self.pick([("call", ("prop", a1, "slice"), []), ("call", ("prop", a1, "slice"), [("num", 0.0)]),
+                                            ("call", ("prop", a1, "rev"), []),
+                                            ("call", ("prop", ("call", ("prop", a1, "iter"), []), "list"), []),
+                                            ("call", ("prop", a1, "sort"), [("lambda", ["x", "y"], ("expr", ("bin", "-", ("var", "x"), ("var", "y"))))])])
+                            if form == 4:
+                                body.append(("print", ("bin", "==", cp, a2)))
+                                body.append(("print", ("call", ("prop", ("var", name2 + "_in"), "has"), [cp])))
+                            else:
+                                cn = "%s_copy%d" % (name2, counter[0])
+                                counter[0] += 1
+                                body.append(("let", cn, cp))
+                                body.append(("expr", ("call", ("prop", ("var", cn), "push"), [("num", 99.0)])))
+                                body.append(("print", ("call", ("prop", a2, "len"), [])))
+                                body.append(("print", ("call", ("prop", ("var", cn), "len"), [])))
+                        elif form == 0:
                             body.append(("print", ("call", ("prop", a1, "len"), [])))
                             body.append(("print", a2))
                         elif form == 1:
